@@ -200,8 +200,7 @@ impl TracingEvent {
                 TracingEvent::NewCallSite { id, data } => {
                     // Replace metadata ID to be predictable.
                     let new_metadata_id = metadata_id_mapping.len() as MetadataId;
-                    metadata_id_mapping.insert(*id, new_metadata_id);
-                    *id = new_metadata_id;
+                    *id = *metadata_id_mapping.entry(*id).or_insert(new_metadata_id);
                     // Normalize file paths to have `/` path delimiters.
                     #[cfg(feature = "std")]
                     if path::MAIN_SEPARATOR != '/' {
